@@ -172,7 +172,7 @@ CHECKS = {
    note="Trusted: virtual loop, Grammar automaton in props/c06.py. Requests where the statement is silent (extra ball after "
         "an end-game request, tilt while already tilted) are not judged. BFS depth 5 on 3 configurations (quick) / 6 on 5 "
         "(thorough) with fingerprint merge audit, plus a focused long-game search (start / drain / extra ball / end ball / "
-        "time only) to depth 9 on 2 (quick) / 11 on 4 configurations (thorough).",
+        "time, holding player_turn_starting) to depth 9 on 2 (quick) / 11 on 4 configurations (thorough).",
    technique="explicit-state BFS of the implementation with a grammar automaton oracle (replay + fork snapshots)",
    ref="3/C06"),
  "C17": dict(cat="model_checking",
